@@ -111,7 +111,7 @@ Q(id='C17.exact', props=['C17'], cls='B', harness='c17_msa_compare.c', entry='h_
   assumptions=[A_NOFAIL, A_WRAP, A_FLOAT, 'bounded: 2-3 rows, widths 2-4, symbols {A,c,-,.}; alignments passed in FINAL state (finalise_alignment is covered by C01)'])
 
 # =========================================================================== C11
-Q(id='C11.bpm', props=['C11'], cls='P', harness='c11_bpm.c', entry='h_c11_bpm',
+Q(id='C11.bpm', props=['C11'], cls='P', harness='c11_bpm.c', entry='h_c11_bpm', tier='thorough',
   mode='dfcc', enforce=['bpm'], loop_contracts=True, loops_files=['bpm.bpm.loops'], unwind=70, timeout=3600, replayable=False,
   solver=['--sat-solver', 'cadical'], mem_gb=24,
   funcs=['bpm'], trusted=[TRUST_MSG],
